@@ -79,6 +79,10 @@ func (p *scnProgram) exec(t *f1testing.T, acts []string) {
 			panic(v)
 		case a[0] == 'L':
 			p.log.add(a)
+		case a[0] == 'W': // the rest of the token, executed inside t.Time("stage", …)
+			initGlobalMetrics()
+			inner := a[1:]
+			t.Time("stage", func() { p.exec(t, []string{inner}) })
 		default:
 			panic("harness: bad action " + a)
 		}
@@ -310,68 +314,83 @@ func init() {
 			recordedAtCleanup, ge, lt, tot.SuccessfulIterationDurations.Count)
 	})
 
-	// scn.counts <workers> <itersPerWorker> <seed> — real iterations on W handles racing with progress
-	// snapshots on a real run.Result; ground truth vs Result.Snapshot() vs Registry.Gather().
+	// scn.counts <workers> <itersPerWorker> <seed> — two consecutive "runs" on ONE metrics instance (reset at
+	// the start of each, as Run.Do does): real iterations on W handles racing with progress snapshots on a
+	// real run.Result; ground truth vs Result.Snapshot() vs Registry.Gather(), per run.
 	register("scn.counts", func(a []string) string {
 		w, per, seed := atoi(a[0]), atoi(a[1]), atoi(a[2])
-		var ts, tf, td atomic.Uint64
-		sc := &scenarios.Scenario{Name: "s", ScenarioFn: func(*f1testing.T) f1testing.RunFn {
-			return func(t *f1testing.T) {
-				it := atoi(t.Iteration)
-				switch (it*2654435761 + seed) % 7 {
-				case 0:
-					tf.Add(1)
-					t.Fail()
-				case 1:
-					tf.Add(1)
-					panic("planned")
-				case 2:
-					tf.Add(1)
-					t.FailNow()
-				default:
-					ts.Add(1)
-				}
-			}
-		}}
-		as, stats, m := newActive(sc)
-		res := run.NewResult(options.RunOptions{Scenario: "s"}, sharedViews, stats)
-		as.Setup()
-		var wg sync.WaitGroup
-		var stop atomic.Bool
-		done := make(chan struct{})
-		go func() {
-			defer close(done)
-			for !stop.Load() {
-				res.SnapshotProgress(time.Second)
-				_ = res.Progress()
-			}
-		}()
-		var next atomic.Int64
-		for i := 0; i < w; i++ {
-			wg.Add(1)
-			go func() {
-				defer wg.Done()
-				st := as.VerifNewIterationState()
-				for j := 0; j < per; j++ {
-					id := next.Add(1)
-					as.VerifIterate(st, strconv.FormatInt(id, 10))
-					if id%11 == 0 {
-						td.Add(1)
-						as.RecordDroppedIteration()
+		m := metrics.NewInstance(prometheus.NewRegistry(), true, nil)
+		var outs []string
+		for round := 0; round < 2; round++ {
+			var ts, tf, td atomic.Uint64
+			sc := &scenarios.Scenario{Name: "s", ScenarioFn: func(*f1testing.T) f1testing.RunFn {
+				return func(t *f1testing.T) {
+					it := atoi(t.Iteration)
+					switch (it*2654435761 + seed + round) % 7 {
+					case 0:
+						tf.Add(1)
+						t.Fail()
+					case 1:
+						tf.Add(1)
+						panic("planned")
+					case 2:
+						tf.Add(1)
+						t.FailNow()
+					default:
+						ts.Add(1)
 					}
 				}
+			}}
+			stats := &progress.Stats{}
+			logger := log.NewDiscardLogger()
+			as := workers.NewActiveScenario(sc, m, stats, logger, log.NewSlogLogrusLogger(logger))
+			res := run.NewResult(options.RunOptions{Scenario: "s"}, sharedViews, stats)
+			m.Reset()
+			as.Setup()
+			var wg sync.WaitGroup
+			var stop atomic.Bool
+			done := make(chan struct{})
+			go func() {
+				defer close(done)
+				for !stop.Load() {
+					res.SnapshotProgress(time.Second)
+					_ = res.Progress()
+				}
 			}()
+			var next atomic.Int64
+			for i := 0; i < w; i++ {
+				wg.Add(1)
+				go func() {
+					defer wg.Done()
+					st := as.VerifNewIterationState()
+					for j := 0; j < per; j++ {
+						id := next.Add(1)
+						as.VerifIterate(st, strconv.FormatInt(id, 10))
+						if id%11 == 0 {
+							td.Add(1)
+							as.RecordDroppedIteration()
+						}
+					}
+				}()
+			}
+			wg.Wait()
+			stop.Store(true)
+			<-done
+			res.GetTotals()
+			sn := res.Snapshot()
+			g := gatherCounts(m.Registry)
+			setup := g.setupSucc + g.setupFail
+			outs = append(outs, fmt.Sprintf("%d %d %d / %d %d %d / %d %d %d %d", ts.Load(), tf.Load(), td.Load(),
+				sn.SuccessfulIterationDurations.Count, sn.FailedIterationDurations.Count, sn.DroppedIterationCount,
+				g.succ, g.fail, g.dropped, setup))
 		}
-		wg.Wait()
-		stop.Store(true)
-		<-done
-		res.GetTotals()
-		sn := res.Snapshot()
-		g := gatherCounts(m.Registry)
-		return fmt.Sprintf("%d %d %d / %d %d %d / %d %d %d", ts.Load(), tf.Load(), td.Load(),
-			sn.SuccessfulIterationDurations.Count, sn.FailedIterationDurations.Count, sn.DroppedIterationCount,
-			g.succ, g.fail, g.dropped)
+		return strings.Join(outs, " // ")
 	})
 }
 
 var firstSetupT, firstIterT *f1testing.T
+
+var globalMetricsOnce sync.Once
+
+// T.Time records into the process-wide metrics instance, which must exist.
+func initGlobalMetrics() { globalMetricsOnce.Do(func() { metrics.Init(true) }) }
